@@ -34,6 +34,10 @@ class _SortedSetCls:
     def is_exception(self):
         return False
 
+    def py_havoc(self, E, o):
+        # loop havoc of a sorted set: its order becomes arbitrary (the membership dictionary is havoced separately)
+        o.fields["order"] = E.fresh_seq("order", "tuple", "tuple")
+
 
 SS = _SortedSetCls()
 
@@ -209,3 +213,183 @@ def register(reg):
                         props=("C11",), callee=False))
     reg.add(g, Contract(F + "nearest_right", ["self", "key_input"], nr_cases, setup=nr_setup, props=("C11",),
                         callee=False))
+    register2(reg)
+    register3(reg)
+
+
+# _prefix_distance, nearest_unknown -------------------------------------------------------------------------
+class ZipLongest:
+    """itertools.zip_longest(a, b, fillvalue=f) over two sequences (assumed contract of itertools): max(|a|, |b|)
+    pairs; a missing element is the fill value"""
+
+    def __init__(self, a, b, fill):
+        self.a, self.b, self.fill = a, b, fill
+
+    def py_iter_len(self, E):
+        la, lb = as_int_term(ops.length(self.a)), as_int_term(ops.length(self.b))
+        return mk_int(z3.If(la >= lb, la, lb))
+
+    def py_iter_elem(self, E, i):
+        out = []
+        for s in (self.a, self.b):
+            if E.decide(mk_bool(i.t < as_int_term(ops.length(s)))):
+                out.append(E.seq_index_nocheck(s, i))
+            else:
+                out.append(self.fill)
+        return tuple(out)
+
+
+def x_zip_longest(E, a, b, fillvalue=None):
+    return ZipLongest(a, b, fillvalue)
+
+
+def pd_setup(E):
+    return {"low_key": HM.nibs(E, "low_key"), "high_key": HM.nibs(E, "high_key")}
+
+
+GJ = z3.Int("gj!dist")        # ghost: an arbitrary position of the distance tuple
+
+
+def dist_at(a, b, j):
+    return z3.If(j < z3.Length(b), b[j], 0) - z3.If(j < z3.Length(a), a[j], 15)
+
+
+def pd_cases(E, ctx):
+    a, b = ops.seq_term_as(ctx.low_key, "int"), ops.seq_term_as(ctx.high_key, "int")
+    n = z3.If(z3.Length(a) >= z3.Length(b), z3.Length(a), z3.Length(b))
+    unit_mode = hasattr(ctx, "outcome")
+
+    def ens(r):
+        rt = ops.seq_term_as(r, "int")
+        return [("one-difference-per-position", mk_bool(z3.Length(rt) == n)),
+                ("difference-with-15-and-0-as-padding", mk_bool(z3.Implies(z3.And(GJ >= 0, GJ < n), rt[GJ] == dist_at(a, b, GJ))))]
+
+    def make():
+        r = E.fresh_seq("distance", "tuple", "int")
+        E.assume(mk_bool(z3.Length(r.t) == n))
+        return r
+    return [Case("distance", ensures=ens if unit_mode else None, make=None if unit_mode else make)]
+
+
+def pd_inv(E, fr, i):
+    a = ops.seq_term_as(fr.locals["low_key"], "int")
+    b = ops.seq_term_as(fr.locals["high_key"], "int")
+    out = fr.gen_out.val.t if hasattr(fr.gen_out, "val") else ops.seq_term(tuple(fr.gen_out))
+    it = as_int_term(i)
+    return [("length", mk_bool(z3.Length(out) == it)),
+            ("differences-so-far", mk_bool(z3.Implies(z3.And(GJ >= 0, GJ < it), out[GJ] == dist_at(a, b, GJ))))]
+
+
+def register2(reg):
+    lib.EXT["itertools.zip_longest"] = x_zip_longest
+    g = "fog"
+    F = MOD + ":HexaryTrieFog."
+    reg.add(g, Contract(F + "_prefix_distance", ["low_key", "high_key"], pd_cases, setup=pd_setup, props=("C11",),
+                        loops={0: LoopSpec(pd_inv, fresh={"low_nibble": "unbound", "high_nibble": "unbound",
+                                                          "final_low_nibble": "unbound", "final_high_nibble": "unbound"})}))
+    reg.add(g, Contract(F + "nearest_unknown", ["self", "key_input"], nu_cases, setup=nr_setup, props=("C11",),
+                        callee=False))
+
+
+# mark_all_complete, __init__, _new_trie_fog ---------------------------------------------------------------------
+class MapIter:
+    """map(f, seq) over a sequence of symbolic length: element i is f(seq[i]), evaluated when it is reached"""
+
+    def __init__(self, f, seq):
+        self.f, self.seq = f, seq
+
+    def py_iter_len(self, E):
+        return lib._iter_len(E, self.seq)
+
+    def py_iter_elem(self, E, i):
+        return E.call(self.f, [E.iter_elem(self.seq, i)])
+
+
+_orig_map = lib.b_map
+
+
+def x_map(E, f, it):
+    if E.concrete_items(it) is None:
+        return MapIter(f, it)
+    return _orig_map(E, f, it)
+
+
+XP = z3.Const("x!probe", SeqI)                     # ghost: an arbitrary nibble tuple
+seen = z3.Function("fog_listed", SeqSeqI, IntS, z3.BoolSort())     # XP is among the first j listed prefixes
+
+
+def unfold_seen(E, inputs, j):
+    E.assume(mk_bool(z3.Not(seen(inputs, z3.IntVal(0)))))
+    E.assume(mk_bool(z3.Implies(j >= 0, seen(inputs, j + 1) == z3.Or(seen(inputs, j), inputs[j] == XP))))
+
+
+def mac_setup(E):
+    f = mk_fog(E)
+    inputs = E.fresh_seq("prefix_inputs", "tuple", "tuple")
+    s = f.fields["_unexplored_prefixes"]
+    E.ghost["mac0"] = (s, s.fields["members"].has)
+    return {"self": f, "prefix_inputs": inputs}
+
+
+def mac_cases(E, ctx):
+    s0, has0 = E.ghost["mac0"]
+    inputs = ops.seq_term(ctx.prefix_inputs)
+    n = z3.Length(inputs)
+
+    def ens(r):
+        if not (isinstance(r, Obj) and is_ss(r.fields.get("_unexplored_prefixes"))):
+            return [("returns-a-fog", False)]
+        ns = r.fields["_unexplored_prefixes"]
+        return [("a-new-object", r is not ctx.self and ns is not s0 and ns.fields["members"] is not s0.fields["members"]),
+                ("exactly-the-listed-prefixes-are-gone",
+                 mk_bool(z3.Select(ns.fields["members"].has, XP) == z3.And(z3.Select(has0, XP), z3.Not(seen(inputs, n)))))]
+    return [Case("marked", ensures=ens, modifies=[]),
+            Case("unknown-prefix", raises=eth_utils_validation_error(), modifies=[]),
+            Case("malformed-nibbles", raises=ValueError, modifies=[])]
+
+
+def mac_inv(E, fr, i):
+    s0, has0 = E.ghost["mac0"]
+    inputs = ops.seq_term(fr.locals["prefix_inputs"])
+    new = fr.locals["new_unexplored_prefixes"]
+    it = as_int_term(i)
+    unfold_seen(E, inputs, it)
+    unfold_seen(E, inputs, it - 1)
+    return [("a-copy-is-being-edited", new is not s0 and new.fields["members"] is not s0.fields["members"]),
+            ("exactly-the-listed-prefixes-so-far-are-gone",
+             mk_bool(z3.Select(new.fields["members"].has, XP) == z3.And(z3.Select(has0, XP), z3.Not(seen(inputs, it)))))]
+
+
+def init_cases(E, ctx):
+    def post():
+        s = ctx.self.fields.get("_unexplored_prefixes")
+        if not is_ss(s):
+            return [("has-a-sorted-set", False)]
+        return [("only-the-root-prefix-is-unexplored",
+                 mk_bool(z3.Select(s.fields["members"].has, XP) == (XP == z3.Empty(SeqI))))]
+    return [Case("fresh-fog", returns=lambda: None, post=post, modifies=[ctx.self])]
+
+
+EUV = None
+
+
+def eth_utils_validation_error():
+    """fog.py raises eth_utils.ValidationError (an external exception class, not trie.exceptions.ValidationError)"""
+    from pyvc.modules import Ext
+    return Ext("eth_utils.ValidationError")
+
+
+def register3(reg):
+    from pyvc.modules import Ext
+    lib.EXT["eth_utils.ValidationError"] = lambda E, *a: ExcObj(Ext("eth_utils.ValidationError"), a)
+    lib.b_map = x_map
+    lib.BUILTINS["map"] = I.Builtin("map", x_map)
+    g = "fog"
+    F = MOD + ":HexaryTrieFog."
+    reg.add(g, Contract(F + "mark_all_complete", ["self", "prefix_inputs"], mac_cases, setup=mac_setup, props=("C11",),
+                        callee=False,
+                        loops={0: LoopSpec(mac_inv, havoc=lambda fr: [fr.locals["new_unexplored_prefixes"].fields["members"],
+                                                                      fr.locals["new_unexplored_prefixes"]],
+                                           fresh={"prefix": "unbound"})}))
+    reg.add(g, Contract(F + "__init__", ["self"], init_cases, setup=lambda E: {"self": Obj(fog_cls(E), {})},
+                        props=("C11",), callee=False))
